@@ -89,7 +89,9 @@ fn select(rng: &mut Rng, depth: u32) -> (J, Vec<String>) {
     } else {
         let (s, sc) = select(rng, depth - 1);
         // a named (unjoined, unprojected) input keeps bare column names
-        let names: Vec<String> = sc.iter().map(|c| match c.split_once('\u{1}') { Some((_, b)) => b.to_string(), None => c.clone() }).collect();
+        // ... now and then the table-qualified form is tried on it all the same (it does not resolve there)
+        let qualify = rng.chance(1, 12);
+        let names: Vec<String> = sc.iter().map(|c| match c.split_once('\u{1}') { Some((a, b)) => if qualify { format!("{}.{}", a, b) } else { b.to_string() }, None => c.clone() }).collect();
         let refs: Vec<&str> = names.iter().map(|s| s.as_str()).collect();
         let cond = if rng.chance(1, 3) { json!({"lit": {"i": 1}}) } else { expr(rng, 2, &refs) };
         let mut cols: Vec<String> = Vec::new();
